@@ -84,10 +84,15 @@ def wrong_sig(res, ref):
 class Scene:
     """A FASTA file with cache files in a chosen initial state, on a logical clock."""
 
-    def __init__(self, d, name="a.fa"):
+    def __init__(self, d, name="a.fa", symlink=False):
         self.dir = Path(d)
         self.dir.mkdir(parents=True, exist_ok=True)
         self.fa = self.dir / name
+        # the FASTA may be given to the tool through a symbolic link; the cache then lives beside the link
+        self.symlink = symlink
+        self.real = (self.dir.parent / (self.dir.name + "-real") / name) if symlink else self.fa
+        if symlink:
+            self.real.parent.mkdir(parents=True, exist_ok=True)
         self.fai = Path(str(self.fa) + ".fai")
         self.agp = Path(str(self.fa) + ".agp")
         self.clock = 1_000_000_000
@@ -101,9 +106,13 @@ class Scene:
             p.unlink()
 
     def write_fasta(self, data, mtime=None):
-        self.fa.write_bytes(data)
+        self.real.write_bytes(data)
+        if self.symlink and not self.fa.is_symlink():
+            self.fa.symlink_to(self.real)
+            t0 = self.tick()  # the link itself is as old as the first version of the file
+            os.utime(self.fa, (t0, t0), follow_symlinks=False)
         t = mtime if mtime is not None else self.tick()
-        os.utime(self.fa, (t, t))
+        os.utime(self.real, (t, t))
         self.data = data
 
     def stamp_caches(self):
@@ -406,7 +415,9 @@ def run_history(ctx, scene, hist, rng, case):
 
 def run_histories(shard, ctx):
     scratch = Path(os.environ.get("VERIF_SHARD_SCRATCH", "."))
-    scene = Scene(scratch / "hist")
+    scene = Scene(scratch / "hist", symlink=shard.get("symlink", False))
+    if shard.get("symlink"):
+        ctx.count("history:fasta-via-symlink-shards")
     if shard["mode"] == "all":
         L = shard["length"]
         hists = [list(h) for n in range(1, L + 1) for h in itertools.product(STEPS, repeat=n) if any(s in ("load", "crash-load") for s in h)]
@@ -419,7 +430,7 @@ def run_histories(shard, ctx):
             hists.append([rng.choice(STEPS + ["load"]) for _ in range(rng.randint(4, 10))])
     for i, h in enumerate(hists):
         rng = rng_for(shard["seed"], "c15hv", shard["index"], i)
-        run_history(ctx, scene, h + ["load"], rng, {"kind": "history", "steps": h + ["load"], "seed": shard["seed"], "index": shard["index"], "i": i})
+        run_history(ctx, scene, h + ["load"], rng, {"kind": "history", "steps": h + ["load"], "seed": shard["seed"], "index": shard["index"], "i": i, "symlink": shard.get("symlink", False)})
 
 
 def run(shard, ctx):
@@ -429,7 +440,7 @@ def run(shard, ctx):
 def replay(case, ctx):
     scratch = Path(os.environ.get("VERIF_SHARD_SCRATCH", "."))
     if case["kind"] == "history":
-        run_history(ctx, Scene(scratch / "hist"), case["steps"], rng_for(case["seed"], "c15hv", case["index"], case["i"]), case)
+        run_history(ctx, Scene(scratch / "hist", symlink=case.get("symlink", False)), case["steps"], rng_for(case["seed"], "c15hv", case["index"], case["i"]), case)
         return
     rng = rng_for(case["seed"], "c15crash" if case["kind"] == "crash" else "c15sched", case["index"])
     if case["kind"] == "crash":
@@ -462,10 +473,11 @@ def plan(tier, seed):
     # histories
     if quick:
         sh += [{"kind": "history", "mode": "all", "length": 3, "part": p, "nparts": 3} for p in range(3)]
-        sh += [{"kind": "history", "mode": "random", "n": 40}]
+        sh += [{"kind": "history", "mode": "random", "n": 40}, {"kind": "history", "mode": "random", "n": 40, "symlink": True}]
     else:
         sh += [{"kind": "history", "mode": "all", "length": 4, "part": p, "nparts": 6} for p in range(6)]
-        sh += [{"kind": "history", "mode": "random", "n": 400} for _ in range(2)]
+        sh += [{"kind": "history", "mode": "random", "n": 400} for _ in range(2)] + [{"kind": "history", "mode": "random", "n": 400, "symlink": True}]
+        sh += [{"kind": "history", "mode": "all", "length": 3, "part": 0, "nparts": 1, "symlink": True}]
     # crash points
     sh += [{"kind": "crash", "size": "small", "scenarios": ["cold", "stale", "equal-mtime"]},
            {"kind": "crash", "size": "small", "scenarios": ["fai-deleted", "agp-deleted", "fresh"]}]
@@ -500,6 +512,7 @@ def gates(c, tier):
         "history:load:rebuilt": 100,
         "history:equal-mtime-steps": 20,
         "history:crash-loads": 30,
+        "history:fasta-via-symlink-shards": 1,
         "crash:runs": 400,
         "crash:at-raw-file-op": 100,
         "sched:runs": 600,
